@@ -1,7 +1,7 @@
 use crate::transport::types::{EntityId, SequenceNumber};
 
 use super::super::{
-    error::RtpsMessageResult,
+    error::{RtpsMessageError, RtpsMessageResult},
     overall_structure::{
         Submessage, SubmessageHeaderRead, SubmessageHeaderWrite, TryReadFromBytes, Write,
         WriteIntoBytes,
@@ -25,13 +25,18 @@ impl NackFragSubmessage {
         mut data: &[u8],
     ) -> RtpsMessageResult<Self> {
         let endianness = submessage_header.endianness();
-        Ok(Self {
+        let nack_frag = Self {
             reader_id: EntityId::try_read_from_bytes(&mut data, endianness)?,
             writer_id: EntityId::try_read_from_bytes(&mut data, endianness)?,
             writer_sn: SequenceNumber::try_read_from_bytes(&mut data, endianness)?,
             fragment_number_state: FragmentNumberSet::try_read_from_bytes(&mut data, endianness)?,
             count: Count::try_read_from_bytes(&mut data, endianness)?,
-        })
+        };
+        // 8.3.7.10.3 Validity: writerSN must be positive
+        if nack_frag.writer_sn <= 0 {
+            return Err(RtpsMessageError::InvalidData);
+        }
+        Ok(nack_frag)
     }
 
     pub fn reader_id(&self) -> EntityId {
